@@ -3,7 +3,8 @@
 # quick check on a scratch copy of /repo's working tree; prints one line per change and writes seeded/MATRIX.md
 cd "$(dirname "$0")/.."
 OUT=seeded/MATRIX.md
-echo "| seeded change | needs | check | result | violation kind |" > $OUT.tmp
+echo "Quick tier, VERIF_SEED=${VERIF_SEED:-1}, against /repo HEAD $(git -C /repo rev-parse --short HEAD) with each change applied to a scratch copy." > $OUT.tmp; echo >> $OUT.tmp
+echo "| seeded change | needs | check | result | violation kind |" >> $OUT.tmp
 echo "|---|---|---|---|---|" >> $OUT.tmp
 run_one() {
   d="$1"; id=$(basename $d); prop=${id:0:3}
